@@ -14,6 +14,7 @@ import Sekai.Driver.Ident
 import Sekai.Driver.Ante
 import Sekai.Driver.MultiStake
 import Sekai.Driver.GenesisCov
+import Sekai.Driver.Recovery
 /-! `sekai-model`: the model side of the correspondence check. One op per input line
 (`<domain> <op> <args…>`), one canonical observation per output line. Core Lean only. -/
 open Sekai
@@ -31,6 +32,7 @@ structure World where
   ident : Driver.Ident.St := {}
   ante : Driver.Ante.St := {}
   ms : Driver.MultiStake.St := {}
+  recov : Driver.Recovery.St := {}
 
 def dispatch (w : World) (line : String) : World × String :=
   let toks := (line.trimAscii.toString.splitOn " ").filter (· ≠ "")
@@ -51,6 +53,7 @@ def dispatch (w : World) (line : String) : World × String :=
   | "ante" :: rest => let (s, o) := Driver.Ante.step w.ante rest; ({ w with ante := s }, o)
   | "ms" :: rest => let (s, o) := Driver.MultiStake.step w.ms rest; ({ w with ms := s }, o)
   | "gencov" :: rest => (w, Driver.GenesisCov.step rest)
+  | "rec" :: rest => let (s, o) := Driver.Recovery.step w.recov rest; ({ w with recov := s }, o)
   | ["reset"] => ({}, "ok")
   | [] => (w, "")
   | _ => (w, "bad-op")
